@@ -143,7 +143,17 @@ def floats(p):
     return st.sampled_from(p.number_pool) if p.number_pool else FLOATS
 
 
+# local times in named zones: inside the repeated hour at the end of daylight saving time (fold matters), inside
+# summer time, inside winter time
+ZONE_TIMES = [('Europe/Berlin', '2023-10-29T02:30:00'), ('America/New_York', '2021-11-07T01:15:00'),
+              ('Australia/Sydney', '2022-04-03T02:45:00'), ('Europe/Berlin', '2023-07-01T12:00:00'),
+              ('America/New_York', '2021-01-15T08:00:00.250000')]
+
+
 def draw_datetime(draw):
+    if draw(st.integers(0, 7)) == 0 and model.zones_available():
+        z, iso = draw(st.sampled_from(ZONE_TIMES))
+        return {'$dt': iso, 'zone': z, 'fold': draw(st.integers(0, 1))}
     base = datetime(1900, 1, 2) + timedelta(seconds=draw(st.integers(0, 8046 * 10 ** 6)),
                                             microseconds=draw(st.sampled_from([0, 0, 1, 499, 500, 999499, 999500,
                                                                                999999, 123456])))
